@@ -155,6 +155,14 @@ theorem lff_rows_eq_tf (v : Nat) (parts : List (Cur κ)) (hv : ∀ p ∈ parts, 
     coiter .lff parts = coiter .tf parts :=
   lff_eq_tf v parts (fun p hp => ⟨hv p hp, hw p hp⟩) hne
 
+/-- **the nesting of the intersections is irrelevant**: `a & (b & c)` — the right operand a lazy
+    intersection, built in place or hoisted out of the loop — delivers exactly the rows of
+    `(a & b) & c` (same coordinates, same payloads in the same order) -/
+theorem tfr_rows_eq_tf (v : Nat) (parts : List (Cur κ)) (hv : ∀ p ∈ parts, isPart v p = true)
+    (hw : ∀ p ∈ parts, WF p.ranks.length p.t) (hne : parts ≠ []) :
+    coiter .tfr parts = coiter .tf parts :=
+  tfr_eq_tf v parts (fun p hp => ⟨hv p hp, hw p hp⟩) hne
+
 /-- **every loop order with operands swizzled to match**: two loop nests over permutations of the
     same loop variables, whose operands denote the same tensors (each in the rank order its loop
     order needs) and whose outputs have the same ranks (each in its loop order), produce outputs
@@ -476,6 +484,7 @@ example : ([0, 2] : List Nat).Sublist [0, 1, 2] := by decide
 #guard content (0 : Int) 2 (run .tf [0, 1, 2] exOps [0, 2] (defaultTree 0 2)) == [([0, 0], 1), ([0, 2], 10), ([2, 2], -5)]
 #guard content (0 : Int) 2 (run .lf [0, 1, 2] exOps [0, 2] (defaultTree 0 2)) == [([0, 0], 1), ([0, 2], 10), ([2, 2], -5)]
 #guard content (0 : Int) 2 (run .lff [0, 1, 2] exOps [0, 2] (defaultTree 0 2)) == [([0, 0], 1), ([0, 2], 10), ([2, 2], -5)]
+#guard content (0 : Int) 2 (run .tfr [0, 1, 2] exOps [0, 2] (defaultTree 0 2)) == [([0, 0], 1), ([0, 2], 10), ([2, 2], -5)]
 #guard content (0 : Int) 2 (run .tf [0, 2, 1] [⟨[0, 1], exA⟩, ⟨[2, 1], exBt⟩] [0, 2] (defaultTree 0 2))
   == [([0, 0], 1), ([0, 2], 10), ([2, 2], -5)]
 #guard einsum exU [0, 1, 2] exOps (fun σ => [0, 2].map σ) [0, 2] (fun _ => 0) == 10
@@ -507,6 +516,8 @@ example : Tiled 2 0 1 (Cur.ofTree [0] 1 rfl exa) (Cur.ofTree [1, 0] 2 rfl exaT) 
 -- dot product 3·5 + (-1)·1 = 14, untiled and tiled (both placements of the halves)
 #guard run .tf [0] [⟨[0], exa⟩, ⟨[0], exb⟩] [] (0 : Int) == (14 : Int)
 #guard run .tf [1, 0] [⟨[1, 0], exaT⟩, ⟨[0], exb⟩] [] (0 : Int) == (14 : Int)
+-- three factors on one rank, right-nested: Σ_k a_k b_k b_k = 3·5·5 + (-1)·1·1 = 74
+#guard run .tfr [0] [⟨[0], exa⟩, ⟨[0], exb⟩, ⟨[0], exb⟩] [] (0 : Int) == (74 : Int)
 #guard run .lf [0, 1] [⟨[0, 1], swizzle (0 : Int) 0 2 [1, 0] exaT⟩, ⟨[0], exb⟩] [] (0 : Int) == (14 : Int)
 -- the leader-follower rows contain the zero products, the filter removes exactly those
 #guard (coiter .lf [(⟨[1], (show List (Int × Int) from [(0, 1), (1, 2)])⟩ : Cur Int), ⟨[1], (show List (Int × Int) from [(1, 5)])⟩]).length == 2
